@@ -36,6 +36,21 @@ def named_inputs(ctx):
                 out.append((tmpl % body, start, "x" if start == "rcdata" else None, False))
     # a semicolon-less name followed by characters that continue towards a LONGER name and then stop: the character that
     # decides the attribute-value exception is the one right after the matched name, not the one that ends the look-ahead
+    ext = reference_sequences(ctx, names)
+    if ctx.quick:
+        ext = [t for t in ext if ctx.rng.random() < 0.5]
+    ext += longer_name_inputs(names)          # all of them in every tier (about 2000)
+    if ctx.quick:
+        keep = []
+        for i, t in enumerate(out):
+            if ctx.rng.random() < 0.3:
+                keep.append(t)
+        out = keep
+    return out + ext
+
+
+def longer_name_inputs(names):
+    """a semicolon-less name followed by characters that continue towards a LONGER name and then stop"""
     legacy = [n for n in names if not n.endswith(";")]
     ext = []
     for nm in legacy:
@@ -52,8 +67,12 @@ def named_inputs(ctx):
                     if cname == "uq" and term in (" ", "<", "="):
                         continue
                     ext.append((tmpl % ("&" + nm + t + term), start, "x" if start == "rcdata" else None, False))
-    # several references in one input (the look-up structure is shared by the whole process: what one reference leaves behind
-    # must not change the next): a name-like string that matches nothing, or a shorter / longer / neighbouring name, then the name
+    return ext
+
+
+def reference_sequences(ctx, names):
+    """several references in one input (the look-up structure is shared by the whole process: what one reference leaves behind
+    must not change the next): a name-like string that matches nothing, or a shorter / longer / neighbouring name, then the name"""
     by_initial = {}
     for nm in names:
         by_initial.setdefault(nm[0], []).append(nm)
@@ -67,16 +86,7 @@ def named_inputs(ctx):
         for j, f in enumerate(firsts):
             tmpl, start = CTX[(i + j) % 3][1:]
             seq.append((tmpl % (f + "&" + nm + " " + f + "&" + other), start, "x" if start == "rcdata" else None, False))
-    ext += seq
-    if ctx.quick:
-        ext = [t for t in ext if ctx.rng.random() < 0.5]
-        # all names in data and dq contexts with 5 followers, seeded third of the rest
-        keep = []
-        for i, t in enumerate(out):
-            if ctx.rng.random() < 0.3:
-                keep.append(t)
-        out = keep
-    return out + ext
+    return seq
 
 
 def _num(args):
